@@ -134,6 +134,12 @@ def eval_case(case):
             full["scenario"]["events"]["local_generation"] = {}
         full["with_gen"] = with_gen
         full["pid"] = PID
+        if case["i"] % 4 == 3 and not with_gen:
+            # options meant for one station type only: the other type's connectors must still give the plain
+            # balanced / greedy result under the run's general options (own generator: the scenario draws stay as they were)
+            r2 = random.Random("C14opt:%s:%s" % (case["seed"], case["i"]))
+            side = r2.choice(["deps", "opps"])
+            full["options"]["strategy_options_" + side] = {"PRICE_THRESHOLD": r2.choice([0.1, 0.3, 0.3, -1.0])}
         # the vehicles of the generator belong to exactly one station each; one station type per connector
     viol, stats = [], []
     r, lines, impl = record_prioritisation(full)
@@ -168,6 +174,8 @@ def eval_case(case):
                     viol.append(("independent", "C14:connector_result_depends_on_other_connectors", "%s %s" % (gid, d[:250])))
         if ncs is None and not full.get("with_gen"):
             ref = dict(sub, strategy="balanced" if stype == "deps" else "greedy")
+            ref["options"] = dict({k: v for k, v in sub.get("options", {}).items() if not k.startswith("strategy_")},
+                                  **sub.get("options", {}).get("strategy_options_" + stype, {}))
             r_ref = scen.run_real(ref, timeout_s=60)
             if r_ref.get("step_i") is not None:
                 n = min(r["step_i"], r_ref["step_i"]) - 1
